@@ -21,7 +21,10 @@ RULE = ('Hypothesis draws (string, configuration) pairs: strings over a 17-chara
         'NFC-stable split points for the per-character built-in rules; PartialLatexToLatexEncoder '
         '= base model + "copy one LaTeX token at a keep character" (token length from an '
         'independent mini tokenizer) and never raises; the cached module-level unicode_to_latex() '
-        'equals a fresh encoder over call histories. Non-trivial = >= 2 rules could match at some '
+        'equals a fresh encoder over call histories. With blanks among keep_latex_chars: kept blanks and the token after them are '
+        'copied, the rest follows the default rules. A caller editing the list returned by '
+        'get_builtin_conversion_rules() does not change later built-in encoders. '
+        'Non-trivial = >= 2 rules could match at some '
         'position, or consumption > 1, or a per-rule protection override applied; distinct by '
         '(string, configuration).')
 ASSUMPTIONS = [
